@@ -1,3 +1,5 @@
 import Bng.Spec.C13
+import Bng.Spec.C13Locks
 import Bng.Audit
 #audit_module Bng.Spec.C13
+#audit_module Bng.Spec.C13Locks
